@@ -349,6 +349,10 @@ pub fn declared_integrity_ex(d: IntegDecl, algo: Algo, data: &[u8], other: &[u8]
                 None => Some(blob::sri(algo, data)),
             }
         }
+        IntegDecl::MultiWeakerOfSame => match weaker_algo(algo) {
+            Some(w) => Some(format!("{} {}", blob::sri(w, data), blob::sri(algo, data))),
+            None => Some(blob::sri(algo, data)),
+        },
         IntegDecl::WrongTail => {
             let mut raw = blob::digest_raw(algo, data);
             let n = raw.len();
@@ -442,7 +446,7 @@ fn build_opts(ctx: &Ctx, s: &WriteSpec, data: &[u8]) -> cacache::WriteOpts {
         if s.integ != IntegDecl::None {
             // a declaration that does not hold when the real one does, and the other way round
             // (the last call alone decides whether the commit is accepted)
-            let real_holds = matches!(s.integ, IntegDecl::Correct | IntegDecl::MultiWithCorrect | IntegDecl::MultiTwoAlgos | IntegDecl::MultiWeakerOfOther);
+            let real_holds = matches!(s.integ, IntegDecl::Correct | IntegDecl::MultiWithCorrect | IntegDecl::MultiTwoAlgos | IntegDecl::MultiWeakerOfOther | IntegDecl::MultiWeakerOfSame);
             let decoy = if real_holds { blob::sri(s.algo, b"decoy") } else { blob::sri(s.algo, data) };
             o = o.integrity(decoy.parse().unwrap());
         }
@@ -955,6 +959,9 @@ const EXACT: usize = usize::MAX - 1;
 /// One read, then `check()` at once / then the reader is dropped without a check.
 const EARLY_CHECK: usize = usize::MAX - 2;
 const DROP_EARLY: usize = usize::MAX - 3;
+/// `usize::MAX - 4` first: `[TO_END, k]` = k bytes (at most) with one plain read, then ONE
+/// `read_to_end` into a vector that already holds 5 foreign bytes and what was read so far
+const TO_END: usize = usize::MAX - 4;
 
 fn read_all_sync<R: Read>(r: &mut R, bufs: &[usize]) -> std::io::Result<Vec<u8>> {
     let mut out = Vec::new();
@@ -1239,6 +1246,30 @@ fn do_sync(ctx: &Ctx, op: &Op) -> Out {
                     };
                 }
             }
+            if bufs.first() == Some(&TO_END) {
+                let k = bufs.get(1).copied().unwrap_or(0).min(1 << 20);
+                let mut acc = b"CVH!!".to_vec();
+                if k > 0 {
+                    let mut one = vec![0u8; k];
+                    match r.read(&mut one) {
+                        Ok(n) => acc.extend_from_slice(&one[..n]),
+                        Err(e) => return io_out(e),
+                    }
+                }
+                let before = acc.len();
+                match r.read_to_end(&mut acc) {
+                    Ok(n) if n != acc.len() - before => return io_out(std::io::Error::new(std::io::ErrorKind::Other, format!("CVH: read_to_end returned {n} but appended {}", acc.len() - before))),
+                    Ok(_) => {}
+                    Err(e) => return io_out(e),
+                }
+                if &acc[..5] != b"CVH!!" {
+                    return io_out(std::io::Error::new(std::io::ErrorKind::Other, "CVH: read_to_end changed what the vector held before"));
+                }
+                return match r.check() {
+                    Ok(_) => bytes_out(&acc[5..]),
+                    Err(e) => err_out(e),
+                };
+            }
             if bufs.first() == Some(&EXACT) {
                 bufs = &bufs[1..];
                 if let Some(n) = content_len(ctx, by) {
@@ -1362,6 +1393,30 @@ async fn do_async(ctx: &Ctx<'_>, op: &Op) -> Out {
                         Err(e) => err_out(e),
                     };
                 }
+            }
+            if bufs.first() == Some(&TO_END) {
+                let k = bufs.get(1).copied().unwrap_or(0).min(1 << 20);
+                let mut acc = b"CVH!!".to_vec();
+                if k > 0 {
+                    let mut one = vec![0u8; k];
+                    match r.read(&mut one).await {
+                        Ok(n) => acc.extend_from_slice(&one[..n]),
+                        Err(e) => return io_out(e),
+                    }
+                }
+                let before = acc.len();
+                match r.read_to_end(&mut acc).await {
+                    Ok(n) if n != acc.len() - before => return io_out(std::io::Error::new(std::io::ErrorKind::Other, format!("CVH: read_to_end returned {n} but appended {}", acc.len() - before))),
+                    Ok(_) => {}
+                    Err(e) => return io_out(e),
+                }
+                if &acc[..5] != b"CVH!!" {
+                    return io_out(std::io::Error::new(std::io::ErrorKind::Other, "CVH: read_to_end changed what the vector held before"));
+                }
+                return match r.check() {
+                    Ok(_) => bytes_out(&acc[5..]),
+                    Err(e) => err_out(e),
+                };
             }
             if bufs.first() == Some(&EXACT) {
                 bufs = &bufs[1..];
@@ -1729,6 +1784,43 @@ pub struct StepResult {
     pub out: Out,
     pub t0: u128,
     pub t1: u128,
+}
+
+/// Runs several steps (async flavour) as futures joined in ONE task: they make progress
+/// interleaved on one thread, each yielding wherever the library awaits.
+pub fn run_steps_joined(ctx: &Ctx, steps: &[Step]) -> Vec<StepResult> {
+    for st in steps {
+        if let Op::LinkTo(l) = &st.op {
+            let p = ctx.target_path(l.target);
+            if std::fs::read(&p).map(|b| b != ctx.blob(l.blob)[..]).unwrap_or(true) {
+                std::fs::write(&p, &ctx.blob(l.blob)[..]).expect("write link target");
+            }
+        }
+    }
+    MY_PANICS.with(|p| p.borrow_mut().clear());
+    COMMIT_T0.with(|c| c.set(None));
+    let t0 = now_ms();
+    win_begin();
+    let r = std::panic::catch_unwind(std::panic::AssertUnwindSafe(|| rt::block_on(futures::future::join_all(steps.iter().map(|s| do_async(ctx, &s.op))))));
+    win_end();
+    let t1 = now_ms();
+    COMMIT_T0.with(|c| c.set(None));
+    match r {
+        Ok(outs) => outs.into_iter().map(|out| StepResult { out, t0, t1 }).collect(),
+        Err(p) => {
+            let recorded = MY_PANICS.with(|p| p.borrow().join(" | "));
+            let msg = if !recorded.is_empty() {
+                recorded
+            } else if let Some(s) = p.downcast_ref::<&str>() {
+                s.to_string()
+            } else if let Some(s) = p.downcast_ref::<String>() {
+                s.clone()
+            } else {
+                "<panic>".into()
+            };
+            steps.iter().map(|_| StepResult { out: Out::Panic(msg.clone()), t0, t1 }).collect()
+        }
+    }
 }
 
 /// Runs one step under the panic catcher.
